@@ -54,7 +54,7 @@ PROPERTIES = {
                         [H("HarnessC02a", b(N=2, K1=2, CACHE=1, PERSISTFIRST=1, HREQ=-1, TMASK=15), sample_every=2000)],
         },
         "must_reach": ["C02.clone.iter-seq", "C02.root-shared-cache.iter-seq", "C02.root-no-cache.iter-seq", "C02.cursor.seq", "C02.original.iter-seq"],
-        "bounds_statement": "base version of N ascending entries (optionally persisted and re-loaded through the cache first), captured by Clone, by Cursor and by MakeRoot; K1 symbolic operations (insert/delete/persist) each on the original, a second clone, or one of two trees re-loaded from the retained root through the same cache; every captured version re-observed after every operation (clone, LoadMast via the shared cache, LoadMast cache-less, cursor)",
+        "bounds_statement": "base version of N ascending entries (optionally persisted and re-loaded through the cache first), captured by Clone, by Cursor and by MakeRoot; K1 symbolic operations (insert/delete/persist) each on the original, a second clone, or one of two trees re-loaded from the retained root through the same cache; every captured version re-observed after every operation (clone, LoadMast via the shared cache, LoadMast cache-less, cursor); also: a base that was never persisted, the v1marshaler decode paths after a restart (cache filled by decoding)",
         "outside": ["more than K1 later operations", "the real ARC cache (harness caches: none, unbounded, FIFO capacity 1)"],
         "assumptions": COMMON_ASSUMPTIONS,
     },
@@ -66,7 +66,7 @@ PROPERTIES = {
             "thorough": [H("HarnessC04b", b(N=5, K=1, NOPS=2, HREQ=2), sample_every=500), H("HarnessC04a", b(K=4, NOPS=3), sample_every=200), H("HarnessC04a", b(K=3, NOPS=4)), H("HarnessC04a", b(K=3, NOPS=3, BF=3)), H("HarnessC04a", b(K=5, NOPS=7, CACHE=1), sample_every=5000)],
         },
         "must_reach": ["C04.height-rule", "C04.same-link"],
-        "bounds_statement": "histories of <= K operations from the empty tree; final persisted root compared with (a) the height rule and (b) the root of a fresh tree given the same entries in ascending order",
+        "bounds_statement": "histories of <= K operations from the empty tree (insert, delete, persist+reload, clone, persist, go back to the first persisted version, restart with an empty cache; the last four only where NOPS says so); final persisted root compared with (a) the height rule and (b) the root of a fresh tree given the same entries in ascending order",
         "assumptions": COMMON_ASSUMPTIONS,
     },
     "C05": {
@@ -87,7 +87,7 @@ PROPERTIES = {
                         [H("HarnessC06a", b(N=4, K=1, MODE=m), sample_every=300) for m in (0, 1)],
         },
         "must_reach": ["C06.iter.each-correct", "C06.iter.complete", "C06.iter.ascending-once", "C06.cursor-same-entries", "C06.stop-count"],
-        "bounds_statement": "ordered pairs (old,new): new = old(N ascending entries) + K inserts/deletes, in memory and persisted; two independent trees of N and K entries, in memory and persisted; nil old; emptied tree on either side; DiffIter vs model difference, StartDiff/NextEntry vs DiffIter, early stop and callback error at every position",
+        "bounds_statement": "ordered pairs (old,new): new = old(N ascending entries) + K inserts/deletes, in memory and persisted (re-loaded, or -- KEEP -- the in-process handle just persisted); two independent trees of N and K entries, in memory and persisted; nil old; emptied tree on either side; DiffIter vs model difference, StartDiff/NextEntry vs DiffIter, early stop and callback error at every position",
         "assumptions": COMMON_ASSUMPTIONS,
     },
     "C07": {
@@ -101,7 +101,7 @@ PROPERTIES = {
             "thorough": [H("HarnessC07a", b(N=3, K=2, MODE=1), sample_every=500), H("HarnessC07a", b(N=4, K=1, MODE=1), sample_every=500), H("HarnessC07a", b(N=3, K=3, MODE=3), sample_every=500), H("HarnessC07a", b(N=3, K=3, MODE=7), sample_every=500), H("HarnessC07a", b(N=4, K=2, MODE=7), sample_every=500)],
         },
         "must_reach": ["C07.added-covers-new-only-nodes", "C07.added-within-new", "C07.added-once", "C07.removed-covers-old-only-nodes", "C07.replica-content"],
-        "bounds_statement": "pairs of persisted versions: descendant (N entries + K operations) and unrelated (N and K entries); reach sets computed by an independent decoder over the store; replica store = old nodes + added nodes",
+        "bounds_statement": "pairs of persisted versions: descendant (N entries + K operations) and unrelated (N and K entries), re-loaded or (KEEP) the in-process handles, cache-less or (CACHEMIX) written through a cache with one side opened through it; reach sets computed by an independent decoder over the store; replica store = old nodes + added nodes",
         "assumptions": COMMON_ASSUMPTIONS,
     },
     "C15": {
@@ -115,7 +115,7 @@ PROPERTIES = {
             "thorough": [H("HarnessC07a", b(N=3, K=2, MODE=1), sample_every=500), H("HarnessC07a", b(N=4, K=1, MODE=1), sample_every=500), H("HarnessC07a", b(N=3, K=3, MODE=3), sample_every=500), H("HarnessC07a", b(N=3, K=3, MODE=7), sample_every=500), H("HarnessC07a", b(N=4, K=2, MODE=7), sample_every=500)],
         },
         "must_reach": ["C15.difflinks-reads", "C15.diffiter-reads", "C15.cursor-reads", "C15.same-version-no-reads"],
-        "bounds_statement": "same pairs as C07, cache-less store; distinct names passed to Persist.Load during DiffLinks, DiffIter and StartDiff+NextEntry (counted from before StartDiff) against D = |reach(old) symmetric-difference reach(new)| (a solver-decided inequality per path)",
+        "bounds_statement": "same pairs as C07 (incl. KEEP and CACHEMIX); distinct names passed to Persist.Load during DiffLinks, DiffIter and StartDiff+NextEntry (counted from before StartDiff) against D = |reach(old) symmetric-difference reach(new)| (a solver-decided inequality per path)",
         "assumptions": COMMON_ASSUMPTIONS,
     },
     "C08": {
@@ -129,7 +129,7 @@ PROPERTIES = {
             "thorough": [H("HarnessC08a", b(K=4, CACHE=0), sample_every=200), H("HarnessC08a", b(K=3, CACHE=1)), H("HarnessC04a", b(K=5, NOPS=7, CACHE=1), sample_every=5000)],
         },
         "must_reach": ["C08.name-is-hash-of-bytes", "C08.bytes-are-canonical-encoding", "C08.reencode-same-root", "C08.child-names-are-names-of-written-nodes", "C08.root-name-is-name-of-a-written-node", "C08.same-root-name-same-contents", "C08.unmodified-load-persists-under-the-same-name", "C08.equal-contents-equal-root-name"],
-        "bounds_statement": "every Store call of every history of <= K operations (incl. persist+reload) and of the final persist",
+        "bounds_statement": "every Store call of every history of <= K operations (incl. persist+reload, go-back and restart operations) and of the final persist; an old version re-read through a fresh cache and through the writer's own cache after another handle modified the tree",
         "assumptions": COMMON_ASSUMPTIONS,
     },
     "C09": {
@@ -148,7 +148,7 @@ PROPERTIES = {
                          H("HarnessC04b", b(N=33, K=1, NOPS=2, Lmax=5, LRULER=1, CONCRETEKEYS=1), sample_every=20, max_steps=60000000), H("HarnessC12a", b(N=3, PRE=0, F=5, OPMASK=3, NOPROBE=1), sample_every=500), H("HarnessC12a", b(N=15, PRE=0, F=12, OPMASK=3, NOPROBE=1, CONCRETEKEYS=1, LRULER=1, Lmax=3), sample_every=200)],
         },
         "must_reach": ["C09.size-after-failed-operation", "C09.size-after-operation-under-fault", "C09.layers", "C09.ranges", "C09.no-empty-node", "C09.size"],
-        "bounds_statement": "persisted version after every history of <= K operations; every reachable node decoded by an independent reader",
+        "bounds_statement": "persisted version after every history of <= K operations (incl. going back to the first persisted version and restarting with an empty cache), and after operations that failed or succeeded under an injected fault; every reachable node decoded by an independent reader",
         "assumptions": COMMON_ASSUMPTIONS,
     },
     "C10": {
@@ -199,7 +199,7 @@ PROPERTIES = {
             "thorough": [H("HarnessC16a", b(N=6), sample_every=2000), H("HarnessC16a", b(N=5, KEEP=1), sample_every=500), H("HarnessC16a", b(N=4, BF=3)), H("HarnessC16a", b(N=70, Lmax=6, LRULER=1, CONCRETEKEYS=1, KEEP=1), sample_every=50, max_steps=60000000)],
         },
         "must_reach": ["C16.get-reads-path", "C16.insert-reads-two-paths", "C16.delete-reads-two-paths", "C16.loadmast-reads-top-only"],
-        "bounds_statement": "persisted trees of N ascending entries (all layer assignments, heights 0..2), cache-less; one Get/Insert/Delete with a symbolic key",
+        "bounds_statement": "persisted trees of N ascending entries (all layer assignments, heights 0..2; directed trees of height 4..6), cache-less; one Get/Insert/Delete with a symbolic key, on a clone of the re-loaded tree or (KEEP) on the in-process handle just persisted, whose reads include the top node",
         "assumptions": COMMON_ASSUMPTIONS,
     },
     "C19": {
@@ -231,7 +231,7 @@ PROPERTIES = {
         },
         "must_reach": ["C14.binary-layout", "C14.decode-is-inverse", "C14.v1marshaler-passes-bare-Node", "C14.uintLayer", "C14.intLayer", "C14.crc-table-is-ECMA", "C14.crc-step", "C14.blobLayer", "C14.stringLayer",
                        "C14.compare-sign", "C14.compare-mismatch-errors", "C14.default-bf-16", "C14.default-format-binary", "C14.golden-node-bytes", "C14.golden-node-name", "C14.golden-uintLayer", "C14.golden-loads"],
-        "bounds_statement": "leaf differential harnesses: marshalMastNode vs an independent encoder and unmarshalMastNode as its inverse for nodes of NK entries and every nil/non-nil link pattern; uintLayer/intLayer vs 'largest e with bf^e | v' over all 64-bit v for bf in {2,4,8,16} (full unrolling, every exit path) and over v < VMAX for bf in {3,5,6,7,10}; CRC table vs the bitwise ECMA polynomial (256 concrete entries), the table-driven update step vs the bitwise LFSR for any 64-bit state and byte, blob/string layers for every 1-byte key; DefaultKeyCompare for int/int64/uint/uint64 (all 64-bit values), string/[]byte of length 0..2, mismatched types; NewRoot/NewInMemory defaults for a symbolic BranchFactor; frozen reference vectors",
+        "bounds_statement": "leaf differential harnesses: marshalMastNode vs an independent encoder and unmarshalMastNode as its inverse for nodes of NK entries and every nil/non-nil link pattern (and every subset of untyped-nil values); uintLayer/intLayer vs 'largest e with bf^e | v' over all 64-bit v for bf in {2,4,8,16} (full unrolling, every exit path) and over v < VMAX for bf in {3,5,6,7,10}; CRC table vs the bitwise ECMA polynomial (256 concrete entries), the table-driven update step vs the bitwise LFSR for any 64-bit state and byte, blob/string layers for every 1-byte key; DefaultKeyCompare for int/int64/uint/uint64 (all 64-bit values), string/[]byte of length 0..2, mismatched types; NewRoot/NewInMemory defaults for a symbolic BranchFactor; frozen reference vectors",
         "outside": ["v1marshaler bytes under the default JSON marshaler (encoding/json is not encodable): only the value handed to the marshaler is checked", "non-power-of-two branch factors beyond v < VMAX (64-bit division chains are out of the solvers' reach; see DESIGN 5)", "CRC inputs longer than one byte other than through the one-step lemma; inputs >= 64 bytes (slicing-by-8 path)", "the BLAKE2b bits (one published test vector only)"],
         "assumptions": COMMON_ASSUMPTIONS,
     },
@@ -249,12 +249,12 @@ PROPERTIES = {
     "C18": {
         "runs": {
             "quick": [H("HarnessC18m", {"LMAX": 2}, sched=True, preempt=3, race=True, sample_every=5), H("HarnessC18f", {"LMAX": 2}, **FILEPKG), H("HarnessC18s", {"LMAX": 2}, **S3PKG)],
-            "thorough": [H("HarnessC18m", {"LMAX": 3}, sched=True, preempt=6, race=True, sample_every=20), H("HarnessC18f", {"LMAX": 3}, **FILEPKG), H("HarnessC18s", {"LMAX": 3}, **S3PKG)],
+            "thorough": [H("HarnessC18m", {"LMAX": 8}, sched=True, preempt=12, race=True, sample_every=20), H("HarnessC18f", {"LMAX": 16}, **{**FILEPKG, "sample_every": 20}), H("HarnessC18s", {"LMAX": 12}, **{**S3PKG, "sample_every": 10})],
         },
         "must_reach": ["C18.mem.roundtrip", "C18.mem.missing-name-errors", "C18.mem.roundtrip-after-concurrent-stores", "C18.mem.roundtrip-two-names",
                        "C18.file.roundtrip", "C18.file.missing-name-errors", "C18.file.read-error-returned",
                        "C18.s3.roundtrip", "C18.s3.put-addresses-prefix+name-in-bucket", "C18.s3.get-addresses-prefix+name-in-bucket", "C18.s3.put-error-returned", "C18.s3.get-error-returned", "C18.s3.body-read-error-returned"],
-        "bounds_statement": "for each backend: symbolic name of 1..2 characters from the node-name alphabet, symbolic payload of 0..LMAX bytes; load before any write, store, load, store again, load; second (possibly equal) name; in-memory: two goroutines storing the same node under every schedule within the preemption bound, with happens-before race detection; file: Stat/ReadFile/CreateTemp/Rename/Close failing; S3: fake client recording Bucket/Key/Body, symbolic bucket and prefix, client and body-read errors",
+        "bounds_statement": "for each backend: symbolic name of 1..2 characters from the node-name alphabet, symbolic payload of 0..LMAX bytes; load before any write, store, load, store again, load; second (possibly equal) name; in-memory: two goroutines storing the same node under every schedule within the preemption bound, with happens-before race detection; file: Stat/ReadFile/CreateTemp/Rename/Close failing; S3: fake client recording Bucket/Key/Body, symbolic bucket and prefix, client and body-read errors, GetObject reporting ContentLength and streaming the body in pieces of a symbolic size",
         "outside": ["the real AWS client and network", "the real kernel file system (model; kernel used in native replay)", "payloads beyond LMAX bytes"],
         "assumptions": COMMON_ASSUMPTIONS,
     },
@@ -289,7 +289,7 @@ PROPERTIES = {
         },
         "extra_labels": ["data-race"],
         "must_reach": ["C11.g1.behaves-as-if-alone", "C11.g2.behaves-as-if-alone", "C11.g1.op-result"],
-        "bounds_statement": "two goroutines, each owning one tree (both loaded from one persisted root through one shared cache; a loaded tree and its clone; an in-memory tree and its clone) over a mutex-protected store and cache; base tree of N ascending entries (height 2 at N=5 for the listed layer patterns); OPS symbolic operations each (Get/Insert/Delete/MakeRoot) then a full Iter; every heap cell access is checked by a vector-clock happens-before detector; per-goroutine results compared with a sequential model",
+        "bounds_statement": "two goroutines, each owning one tree (both loaded from one persisted root through one shared cache -- the writer's, or an empty one that fills by decoding, in each node format; a loaded tree and its clone; an in-memory tree and its clone) over a mutex-protected store and cache; base tree of N ascending entries (height 2 at N=5 for the listed layer patterns); OPS symbolic operations each (Get/Insert/Delete/MakeRoot) then a full Iter; every heap cell access is checked by a vector-clock happens-before detector; per-goroutine results compared with a sequential model",
         "outside": ["more than two goroutines or more than OPS operations each", "races inside the real ARC cache or the Go runtime", "interleavings are those of the listed deterministic scheduling policies (round-robin / run-to-block) plus context-bounded exploration where stated: a race is reported when two conflicting accesses are unordered by happens-before in an explored execution"],
         "assumptions": COMMON_ASSUMPTIONS + ["race = two accesses to one heap cell (struct field, slice element, variable), at least one a write, by different goroutines, unordered by the happens-before relation built from go statements, channel operations, Mutex, WaitGroup and Once (vector clocks)",
                                                 "race findings are confirmed natively with `go test -race` on the same harness and inputs when reported"],
